@@ -2,7 +2,8 @@
  * hash is a function of the value alone; copy / assign / swap).  Black box: public API only.
  *
  * stdin, one case per line:
- *   M <hex>            hash_data over the bytes                       -> "h=<dec>"
+ *   M <hex>            hash_data over the bytes                       -> "h=<dec> al=ok|FAIL(off)" (al: the
+ *                      same bytes copied to each of the 8 alignments within a word hash the same)
  *   V <term> <term>    two values a, b                                -> see below
  * term ::= I<dec> | F<16 hex digits: bit pattern> | S<hex bytes> | T<type name> | R<16 hex: address held> | B<16 hex>
  *        | P<hex bytes>                      plain struct of that many bytes (no Cmp/Hash/Assign instance)
@@ -387,7 +388,17 @@ static void one_case(char* line) {
     char* s = line + 2; size_t n = strlen(s) / 2;
     unsigned char* d = malloc(n + 8);
     for (size_t i = 0; i < n; i++) d[i] = (unsigned char)(hexval(s[2*i]) * 16 + hexval(s[2*i+1]));
-    P("h=%" PRIu64, hash_data(d, n));
+    uint64_t h0 = hash_data(d, n);
+    P("h=%" PRIu64, h0);
+    /* the same bytes at every alignment within a word, surrounded by other bytes: same hash */
+    unsigned char* e = malloc(n + 32);
+    int bad = -1;
+    for (int off = 0; off < 8; off++) {
+      memset(e, 0xA5 ^ off, n + 32);
+      memcpy(e + 8 + off, d, n);
+      if (hash_data(e + 8 + off, n) != h0) { bad = off; break; }
+    }
+    if (bad < 0) P(" al=ok"); else P(" al=FAIL(%d)", bad);
     return;
   }
   if (line[0] == 'V' && line[1] == ' ') { value_case(line + 2); return; }
